@@ -174,7 +174,8 @@ def setup_event(sc):
                 kill=sc["kill"], freeze=sc.get("freeze", []), killfarm=sc.get("killfarm", []), out=dict(ops=sc["ops"], numrec=sc["numrec"], sparse=sc["layout"] == "sparse", pvars=sc["pvars"],
                          proto=list(os.path.splitext(sc.get("outname", "out.nc"))[0])),
                 scal=dict(has=bool(sc["hasscal"]), N=int(sc["N"]),
-                          frames=[((t - sc["start"]) // sc["dt"]) * (-1 if sc["rev"] else 1) for t in sc["ftimes"]]),
+                          frames=[((t - sc["start"]) // sc["dt"]) * (-1 if sc["rev"] else 1) for t in sc["ftimes"]],
+                          fnum=[int(f) for f in (sc.get("frame_numbers") or range(len(sc["ftimes"])))]),      # number the field formula was given
                 warm=bool(sc.get("warm")), vert=bool(sc.get("vert") or sc.get("wfield")), token=sc.get("token", 0),
                 **({"init": sc["warm"]["init"], "warmidx": sc["warm"]["idx"]} if sc.get("warm") else {}))
 
